@@ -3,6 +3,15 @@ import GolibsVerif.Lemmas.TmoPool
 C13 — Timers: every live future fires; the pool adapts and winds down.
 `c : Cfg` arbitrary with maxWorkers ≥ 1; any arrival pattern (add / cancel at any time), any
 interleaving of watcher iterations, timer and token wake-ups, and time passing.
+
+`someone_responsible` and `no_stuck_state` as originally stated are FALSE for the model (see
+`someone_responsible_refuted`, `no_stuck_state_refuted`; run in Lemmas/TmoPoolCex.lean): a watcher that
+sleeps until exactly the head's fire time wakes when `now = fireT`, finds the head "not due"
+(`now.After(fireT)` is strict) and, with `mis > 1` and `watchers > 1`, exits, leaving only
+idle-capped sleepers whose deadlines lie after the fire time.  What does hold
+(`someone_responsible_partial`): strictly before the head's fire time somebody is always
+responsible; from the fire time on, at worst an idle-capped sleeper wakes within `idle` (and no
+later than `fireT + idle`).
 -/
 namespace C13
 open Tmo.Pool
@@ -10,48 +19,203 @@ open Tmo.Pool
 /-- C13.watchers_exact: the counter equals the number of live watcher threads; tokens never exceed the channel capacity -/
 theorem watchers_exact (c : Cfg) (hm : 1 ≤ c.maxWorkers) (s : St) (h : Reach c s) :
     s.watchers = live s ∧ s.tokens ≤ c.maxWorkers ∧ s.watchers ≤ c.maxWorkers :=
-  sorry
+  have hI := Inv.reach hm h
+  ⟨hI.wl, hI.tok, hI.wmax⟩
 
-/-- C13.someone_responsible: whenever a future is pending, some live watcher is awake, or sleeps no
-longer than until the earliest fire time, or a wake token is waiting for a sleeping watcher. -/
-theorem someone_responsible (c : Cfg) (hm : 1 ≤ c.maxWorkers) (s : St) (h : Reach c s) (id fireT : Nat)
+/-- C13.someone_responsible as originally stated: whenever a future is pending, some live watcher is
+awake, or sleeps no longer than until the earliest fire time, or a wake token is waiting for a
+sleeping watcher.  REFUTED below. -/
+def someone_responsible_full : Prop :=
+  ∀ (c : Cfg) (_hm : 1 ≤ c.maxWorkers) (s : St) (_h : Reach c s) (id fireT : Nat)
+    (_hh : headOf s.heap = some (id, fireT)),
+    (∃ p ∈ s.threads, Responsible s fireT p) ∨
+    (0 < s.tokens ∧ ∃ d mis cp, WPc.sleeping d mis cp ∈ s.threads)
+
+theorem someone_responsible_refuted : ¬ someone_responsible_full := by
+  intro hf
+  have := hf cexCfg (by decide) cexState cex_reach 2 1 (by decide)
+  simp [cexState, Responsible] at this
+
+/-- C13.someone_responsible, the part that holds: a pending head future has a responsible watcher or
+a token waiting for a sleeper — except possibly once its fire time has been reached
+(`fireT ≤ now`), when the guarantee degrades to: some idle-capped sleeper wakes within `idle`
+from now and no later than `idle` after the fire time. -/
+theorem someone_responsible_partial (c : Cfg) (hm : 1 ≤ c.maxWorkers) (s : St) (h : Reach c s) (id fireT : Nat)
     (hh : headOf s.heap = some (id, fireT)) :
     (∃ p ∈ s.threads, Responsible s fireT p) ∨
-    (0 < s.tokens ∧ ∃ d mis cp, WPc.sleeping d mis cp ∈ s.threads) :=
-  sorry
+    (0 < s.tokens ∧ ∃ d mis cp, WPc.sleeping d mis cp ∈ s.threads) ∨
+    (fireT ≤ s.now ∧ ∃ d mis, WPc.sleeping d mis true ∈ s.threads ∧ d ≤ s.now + c.idle ∧ d ≤ fireT + c.idle) := by
+  have hI := Inv.reach hm h
+  have hL := Late.reach hm h
+  have hw := hI.ne id fireT hh
+  rw [hI.wl] at hw
+  obtain ⟨j, p, hj, hp⟩ := exists_live_of_pos hw
+  have hmem := List.mem_of_getElem? hj
+  cases p with
+  | top f mis => exact Or.inl ⟨_, hmem, trivial⟩
+  | exited => exact absurd rfl hp
+  | sleeping d m cp =>
+    by_cases ht : 0 < s.tokens
+    · exact Or.inr (Or.inl ⟨ht, d, m, cp, hmem⟩)
+    · have ht0 : s.tokens = 0 := by omega
+      by_cases hnow : s.now < fireT
+      · rcases hI.key id fireT hh ht0 hnow with h1 | ⟨j', p', hj', hs⟩ | ⟨j', m', cp', hj'⟩
+        · exact Or.inl ⟨_, hmem, h1 j d m cp hj⟩
+        · have hmem' := List.mem_of_getElem? hj'
+          cases p' with
+          | top f mis => exact Or.inl ⟨_, hmem', trivial⟩
+          | sleeping _ _ _ => exact hs.elim
+          | exited => exact hs.elim
+        · exact Or.inl ⟨_, List.mem_of_getElem? hj', Nat.le_refl _⟩
+      · cases cp with
+        | true =>
+          by_cases hx : ∃ (j : Nat) (g : Option Nat) (mis : Nat), s.threads[j]? = some (WPc.top g mis)
+          · obtain ⟨j', g, mis, hj'⟩ := hx
+            exact Or.inl ⟨_, List.mem_of_getElem? hj', trivial⟩
+          · have hnt : NoTop s := fun j' g mis hj' => hx ⟨j', g, mis, hj'⟩
+            exact Or.inr (Or.inr ⟨by omega, d, m, hmem, hI.cap j d m hj, hL id fireT hh ht0 hnt j d m hj⟩)
+        | false =>
+          rcases hI.uncd j d m hj with h0 | h2
+          · exact absurd h0 ht
+          · exact Or.inl ⟨_, hmem, h2 id fireT hh⟩
 
-/-- C13.no_stuck_state: if the earliest pending future is due, some watcher step is enabled that is not
-a mere sleep — the future cannot be forgotten (with fair scheduling it is started). -/
-theorem no_stuck_state (c : Cfg) (hm : 1 ≤ c.maxWorkers) (s : St) (h : Reach c s) (id fireT : Nat)
-    (hh : headOf s.heap = some (id, fireT)) (hdue : fireT < s.now) :
+/-- corollary: strictly before the earliest fire time the original statement holds -/
+theorem someone_responsible_before_due (c : Cfg) (hm : 1 ≤ c.maxWorkers) (s : St) (h : Reach c s) (id fireT : Nat)
+    (hh : headOf s.heap = some (id, fireT)) (hb : s.now < fireT) :
+    (∃ p ∈ s.threads, Responsible s fireT p) ∨
+    (0 < s.tokens ∧ ∃ d mis cp, WPc.sleeping d mis cp ∈ s.threads) := by
+  rcases someone_responsible_partial c hm s h id fireT hh with h1 | h2 | ⟨h3, _⟩
+  · exact Or.inl h1
+  · exact Or.inr h2
+  · omega
+
+/-- C13.no_stuck_state as originally stated: if the earliest pending future is due, some watcher step
+is enabled that is not a mere sleep.  REFUTED below. -/
+def no_stuck_state_full : Prop :=
+  ∀ (c : Cfg) (_hm : 1 ≤ c.maxWorkers) (s : St) (_h : Reach c s) (id fireT : Nat)
+    (_hh : headOf s.heap = some (id, fireT)) (_hdue : fireT < s.now),
     (∃ (i : Nat) (f : Option Nat) (mis : Nat), s.threads[i]? = some (WPc.top f mis)) ∨
-    (∃ (i : Nat) (d : Nat) (mis : Nat) (cp : Bool), s.threads[i]? = some (WPc.sleeping d mis cp) ∧ (d ≤ s.now ∨ 0 < s.tokens)) :=
-  sorry
+    (∃ (i : Nat) (d : Nat) (mis : Nat) (cp : Bool), s.threads[i]? = some (WPc.sleeping d mis cp) ∧ (d ≤ s.now ∨ 0 < s.tokens))
+
+theorem no_stuck_state_refuted : ¬ no_stuck_state_full := by
+  intro hf
+  rcases hf cexCfg (by decide) cexState2 cex_reach2 2 1 (by decide) (by decide) with ⟨i, f, mis, hi⟩ | ⟨i, d, mis, cp, hi, hd⟩
+  · have hmem := List.mem_of_getElem? hi
+    simp [cexState2, cexState] at hmem
+  · have hmem := List.mem_of_getElem? hi
+    simp [cexState2, cexState] at hmem
+    obtain ⟨rfl, _, _⟩ := hmem
+    simp [cexState2, cexState] at hd
+
+/-- C13.no_stuck_state, the part that holds: if the earliest pending future is due, then now (`k = 0`)
+or after `k ≤ idle` further ticks (and no other step), at a time no later than `fireT + idle`, some
+watcher step other than sleeping on is enabled — the future can be late by up to the idle timeout,
+but it cannot be forgotten. -/
+theorem no_stuck_state_partial (c : Cfg) (hm : 1 ≤ c.maxWorkers) (s : St) (h : Reach c s) (id fireT : Nat)
+    (hh : headOf s.heap = some (id, fireT)) (hdue : fireT < s.now) :
+    ∃ k, k ≤ c.idle ∧ (k = 0 ∨ s.now + k ≤ fireT + c.idle) ∧
+    ((∃ (i : Nat) (f : Option Nat) (mis : Nat), s.threads[i]? = some (WPc.top f mis)) ∨
+     (∃ (i : Nat) (d : Nat) (mis : Nat) (cp : Bool), s.threads[i]? = some (WPc.sleeping d mis cp) ∧ (d ≤ s.now + k ∨ 0 < s.tokens))) := by
+  rcases someone_responsible_partial c hm s h id fireT hh with ⟨p, hp, hr⟩ | ⟨ht, d, mis, cp, hp⟩ | ⟨_, d, mis, hp, hd, hd2⟩
+  · obtain ⟨i, hi⟩ := List.getElem?_of_mem hp
+    cases p with
+    | top f mis => exact ⟨0, Nat.zero_le _, Or.inl rfl, Or.inl ⟨i, f, mis, hi⟩⟩
+    | sleeping d mis cp =>
+      have hr' : d ≤ fireT := hr
+      exact ⟨0, Nat.zero_le _, Or.inl rfl, Or.inr ⟨i, d, mis, cp, hi, Or.inl (by omega)⟩⟩
+    | exited => exact hr.elim
+  · obtain ⟨i, hi⟩ := List.getElem?_of_mem hp
+    exact ⟨0, Nat.zero_le _, Or.inl rfl, Or.inr ⟨i, d, mis, cp, hi, Or.inr ht⟩⟩
+  · obtain ⟨i, hi⟩ := List.getElem?_of_mem hp
+    exact ⟨d - s.now, by omega, by omega, Or.inr ⟨i, d, mis, true, hi, Or.inl (by omega)⟩⟩
 
 /-- C13.never_early + started only once, at pool level: a callback is started only after it was
 popped when due, and every started id was pending before -/
 theorem started_were_due (c : Cfg) (s t : St) (st : Step c s t) (id : Nat)
     (hn : id ∈ t.started) (ho : id ∉ s.started) :
-    ∃ (i : Nat) (mis : Nat), s.threads[i]? = some (WPc.top (some id) mis) :=
-  sorry
+    ∃ (i : Nat) (mis : Nat), s.threads[i]? = some (WPc.top (some id) mis) := by
+  cases st with
+  | add fireT =>
+    exfalso; apply ho
+    have : (addT c s fireT).started = s.started := by
+      unfold addT; split <;> rfl
+    exact this ▸ hn
+  | cancel id' _ =>
+    exfalso; apply ho
+    have : (cancelT c s id').started = s.started := by
+      unfold cancelT; split <;> rfl
+    exact this ▸ hn
+  | section_ i f mis hi =>
+    have hst : (secT c (ranCb s f) i (misNext f mis)).started = (ranCb s f).started :=
+      (secT_out c _ i _).started
+    cases f with
+    | none =>
+      exfalso; apply ho
+      have hn' : id ∈ (secT c (ranCb s none) i (misNext none mis)).started := hn
+      rw [hst] at hn'
+      exact hn'
+    | some id' =>
+      have hn' : id ∈ (secT c (ranCb s (some id')) i (misNext (some id') mis)).started := hn
+      rw [hst] at hn'
+      have hn'' : id ∈ s.started ++ [id'] := hn'
+      rw [List.mem_append] at hn''
+      rcases hn'' with h1 | h2
+      · exact absurd h1 ho
+      · have : id = id' := by simpa using h2
+        subst this
+        exact ⟨i, mis, hi⟩
+  | timerWake i d mis cp hi hd => exact absurd hn ho
+  | tokenWake i d mis cp hi ht => exact absurd hn ho
+  | tick => exact absurd hn ho
 
 /-- C13.restart: a Call with no watcher alive starts one -/
 theorem restart (c : Cfg) (s : St) (fireT : Nat) (hw : s.watchers = 0) :
-    ∃ t, Step c s t ∧ t.watchers = 1 ∧ (WPc.top none 0) ∈ t.threads ∧ (s.nextId, fireT) ∈ t.heap :=
-  sorry
+    ∃ t, Step c s t ∧ t.watchers = 1 ∧ (WPc.top none 0) ∈ t.threads ∧ (s.nextId, fireT) ∈ t.heap := by
+  refine ⟨addT c s fireT, Step.add s fireT, ?_, ?_, ?_⟩ <;> simp [addT, hw]
 
 /-- C13.burst_spawns: a watcher that pops a due future while another one is already due and the pool
 is below its limit starts one more watcher -/
 theorem burst_spawns (c : Cfg) (s : St) (i mis id fireT id2 t2 : Nat) (f : Option Nat)
     (h : s.threads[i]? = some (WPc.top f mis)) (hh : headOf s.heap = some (id, fireT)) (hd : fireT < s.now)
     (h2 : headOf (s.heap.filter (·.1 != id)) = some (id2, t2)) (hd2 : t2 < s.now) (hw : s.watchers < c.maxWorkers) :
-    ∃ t, Step c s t ∧ t.watchers = s.watchers + 1 ∧ t.threads.length = s.threads.length + 1 :=
-  sorry
+    ∃ t, Step c s t ∧ t.watchers = s.watchers + 1 ∧ t.threads.length = s.threads.length + 1 := by
+  refine ⟨secT c (ranCb s f) i (misNext f mis), step_section c s i f mis h, ?_⟩
+  have e1 : (ranCb s f).heap = s.heap := by cases f <;> rfl
+  have e2 : (ranCb s f).now = s.now := by cases f <;> rfl
+  have e3 : (ranCb s f).watchers = s.watchers := by cases f <;> rfl
+  have e4 : (ranCb s f).threads = s.threads := by cases f <;> rfl
+  have ho := secT_out c (ranCb s f) i (misNext f mis)
+  generalize secT c (ranCb s f) i (misNext f mis) = t at ho
+  generalize ranCb s f = s0 at ho e1 e2 e3 e4
+  cases ho with
+  | exitEmpty hh' _ => rw [e1, hh] at hh'; cases hh'
+  | sleepIdle hh' _ => rw [e1, hh] at hh'; cases hh'
+  | popSpawn a b a2 b2 hh' _ _ _ _ =>
+    rw [e1, hh] at hh'; cases hh'
+    refine ⟨?_, ?_⟩
+    · show s0.watchers + 1 = s.watchers + 1
+      rw [e3]
+    · show ((s0.threads ++ [WPc.top none 0]).set i _).length = s.threads.length + 1
+      rw [e4]; simp
+  | pop a b hh' _ hns =>
+    rw [e1, hh] at hh'; cases hh'
+    rw [e1, e2, e3] at hns
+    exact (hns id2 t2 h2 hd2 hw).elim
+  | exitBusy a b hh' hnd _ _ => rw [e1, hh] at hh'; cases hh'; omega
+  | sleepCapped a b hh' hnd _ _ => rw [e1, hh] at hh'; cases hh'; omega
+  | sleepUncapped a b hh' hnd _ => rw [e1, hh] at hh'; cases hh'; omega
 
 /-- C13.wind_down (one-step form): with nothing pending a watcher that has found nothing to do twice exits -/
 theorem wind_down (c : Cfg) (s : St) (i mis : Nat) (h : s.threads[i]? = some (WPc.top none mis)) (hm : 1 ≤ mis)
     (he : s.heap = []) :
-    ∃ t, Step c s t ∧ t.threads[i]? = some WPc.exited ∧ t.watchers = s.watchers - 1 :=
-  sorry
+    ∃ t, Step c s t ∧ t.threads[i]? = some WPc.exited ∧ t.watchers = s.watchers - 1 := by
+  refine ⟨secT c (ranCb s none) i (misNext none mis), step_section c s i none mis h, ?_⟩
+  have hgt : misNext none mis > 1 := by simp [misNext]; omega
+  have : secT c (ranCb s none) i (misNext none mis)
+      = setT { s with watchers := s.watchers - 1 } i .exited := by
+    unfold secT
+    simp only [ranCb, he, headOf_nil, hgt, if_true]
+  rw [this]
+  exact ⟨get_set_self h, rfl⟩
 
 end C13
